@@ -93,6 +93,20 @@ def generate(rng, tier, ctx):
         for _ in range(40 * n):
             a, b = rng.scalar(0.6), rng.scalar(0.6)
             cases.append(('sc %s %s %s' % (so, h32(a), h32(b)), ('sc', so)))
+    # rounding carry of mul_shift_var: products whose bits [shift-1 .. shift+64k-1] are all ones, so that the rounding
+    # increment ripples through k whole limbs (a 2^-64k event for random operands); built as a = floor(T / b)
+    for _ in range(30 * n):
+        b0 = rng.choice([128, 128, 128, 0, 1, 64, 127, rng.randint(0, 128)])
+        shift = 256 + b0
+        b = (b0 << 248) | rng.r.getrandbits(248) | 1
+        klimbs = rng.choice([1, 1, 2, 3])
+        top = min(shift + 64 * klimbs, 510)
+        T = rng.r.getrandbits(max(shift - 1, 1)) | (((1 << (top - shift + 1)) - 1) << (shift - 1))
+        if top < 500 and rng.random() < 0.5: T |= rng.r.getrandbits(min(8, 510 - top)) << (top + 1)
+        T |= 1 << rng.randint(300, 380) if shift > 381 else 0
+        a = T // b
+        if 0 < a < N and b < N:
+            cases.append(('sc mulshift %s %s' % (h32(a), h32(b)), ('sc', 'mulshift-carry-crafted')))
     # lambda split boundary scalars
     for k in range(40 * n):
         a = (rng.choice(EDGE_SCALARS) * rng.choice([1, LAMBDA, N - LAMBDA])) % M256
@@ -127,10 +141,12 @@ def generate(rng, tier, ctx):
         cases.append(('ecmult_gen %s' % h32(1 << b), ('ecmult_gen', 'bit')))
         cases.append(('ecmult_gen %s' % h32((M256 - 1) ^ (1 << b)), ('ecmult_gen', 'notbit')))
     # --- multi-scalar
-    sizes = [0, 1, 2, 3, 5, 8, 17, 40, 87, 88, 89, 123, 124, 160] + ([200, 300] if tier == 'thorough' else [])
+    # Pippenger's bucket window grows with the batch size (window 7 from 236 points, 8 from 455, ...): cross those thresholds
+    sizes = [0, 1, 2, 3, 4, 5, 8, 17, 20, 21, 40, 57, 58, 87, 88, 89, 123, 124, 136, 137, 160, 235, 236, 300] + ([200, 1000, 1260, 1261, 1300] if tier == 'thorough' else [])
     for nn in sizes:
         for scratch in ['_', '0', '100', '1000', '5000', '30000', '300000', '4000000']:
             if tier == 'quick' and nn > 40 and scratch not in ('_', '30000', '4000000'): continue
+            if nn > 300 and scratch not in ('_', '300000', '4000000'): continue
             pts = []
             for i in range(nn):
                 Q = rng.point() if rng.random() > 0.1 else None
